@@ -62,11 +62,13 @@ def main():
     acc, _ = sem.validate(c, progs2, name="good", batches=1)
     expect(acc == len(progs2) and not c.violations, "real stepping runs of generated programs are accepted by TheoSem")
     p = next(p for p in progs2 if len(p["run"]["stops"]) > 4)
-    p["run"]["stops"][2]["views"][0][0][1] += 1
+    # a user variable of the main part (hidden loop counters and temporaries in the view are not compared)
+    vi = next(i for i, e in enumerate(p["run"]["stops"][2]["views"][0]) if e[0] in p["ast"]["mainvars"])
+    p["run"]["stops"][2]["views"][0][vi][1] += 1
     c = Probe()
     sem.validate(c, progs2, name="bad_value", batches=1)
     expect(len(c.violations) >= 1, "a stepping trace with one corrupted variable value is rejected")
-    p["run"]["stops"][2]["views"][0][0][1] -= 1
+    p["run"]["stops"][2]["views"][0][vi][1] -= 1
     del p["run"]["stops"][1]
     c = Probe()
     sem.validate(c, progs2, name="bad_stop", batches=1)
